@@ -252,7 +252,19 @@ def cmd_baseline(props):
     os.makedirs(os.path.join(VERIF, 'baseline'), exist_ok=True)
     baseline = load_baseline()
     known = load_json(os.path.join(VERIF, 'known-findings.json'), {'findings': []})
+    flags = [a for a in props if a.startswith('--')]
+    props = [a for a in props if not a.startswith('--')]
     units = [u for u in all_units if (not props or set(props) & set(u['props']) or u['name'] in props)]
+    if '--missing' in flags:
+        units = [u for u in units if u['name'] not in baseline]
+    if '--quick' in flags:
+        units = [u for u in units if u.get('tier', 'quick') == 'quick']
+    if '--thorough-only' in flags:
+        units = [u for u in units if u.get('tier', 'quick') != 'quick']
+    if '--checks' in flags:
+        units = [u for u in units if u.get('role', 'check') == 'check']
+    units.sort(key=lambda u: -u.get('expect_s', 10))
+    print('baseline run over %d units' % len(units), flush=True)
     scratch = tempfile.mkdtemp(prefix='verif-base-')
     log_dir = os.path.join(VERIF, 'build', 'logs', 'baseline')
     os.makedirs(log_dir, exist_ok=True)
